@@ -16,7 +16,7 @@ def main():
         "evidence_file": "evidence/%s.json" % pid,
         "replay_cmd_template": "./check %s --replay {path}" % pid,
         "engine": "coq-proof+correspondence",
-        "level_claimed": {"category": meta.get("level", "proof"),
+        "level_claimed": {"category": ("proof" if str(meta.get("level", "proof")).lower().startswith("proof") else meta.get("level")),
                           "text": meta.get("level_text", "Coq theorems over a Gallina model of the anchored code, tied to /repo by T1 (source-extracted constants) and T2 (extracted model vs implementation), see DESIGN.md"),
                           "design_ref": meta.get("design_ref", "DESIGN.md section 6/" + pid)},
         "level_note": meta.get("level_note", "Trusted: Coq kernel, T1 extractor, ExtrOcamlBasic extraction + OCaml driver, Rust harness; see evidence coverage.trusted_base and coverage.not_modelled"),
